@@ -208,6 +208,8 @@ class Executor:
     def coerce(self, v, t, st):
         if isinstance(v, Unknown):
             return self.fresh_of_type(t, st, "unk")
+        if isinstance(t, Opaque) and t.nm == "Expr" and isinstance(v, Val) and v.t == Int:
+            return Val(t, z3.Function("expr_of_int", z3.IntSort(), t.sort())(v.z))
         if isinstance(v, Val) and isinstance(v.t, Opaque) and v.t.nm == "Any" and v.t != t:
             out = self.fresh_of_type(t, st, "from_any")        # an untracked JSON value used at a concrete type
             if t.mutable:
@@ -529,7 +531,9 @@ class Executor:
                 st.assume(z3.ForAll([k], z3.Implies(z3.Select(d, k),
                                                     z3.Exists([i], z3.And(0 <= i, i < n, ks[i] == k)))))
                 self.assume_log("A5: set/dict iteration order is an arbitrary duplicate-free enumeration of the keys")
-                return View(n, lambda i: self.valid_ref(st, Val(t.k, ks[i])), t.k, distinct=True)
+                w = View(n, lambda i: self.valid_ref(st, Val(t.k, ks[i])), t.k, distinct=True)
+                w.keys_seq = Val(Seq(t.k), ks)
+                return w
             if isinstance(t, Opt):
                 return self.view_of(self.coerce(v, t.elt, st), st)
             if isinstance(t, Obj) and self.reg.classes.get(t.cls) and self.reg.classes[t.cls].iter_delegate:
@@ -907,6 +911,13 @@ class Executor:
             if a.parts and a.parts[0] == "items" and len(a.parts[1]) == 1:
                 return Val(t, z3.Concat(a.z, b.z), parts=("cons", a.parts[1][0], b))
             return Val(t, z3.Concat(a.z, b.z), parts=("concat", a, b))
+        for x in (l, r):
+            if isinstance(x, Val) and isinstance(x.t, Opaque) and x.t.nm == "Expr":
+                # symbolic algebra values: operators are uninterpreted functions (the algebra is external, A3)
+                a = self.coerce(l, x.t, st) if not (isinstance(l, Val) and l.t == x.t) else l
+                b = self.coerce(r, x.t, st) if not (isinstance(r, Val) and r.t == x.t) else r
+                f = z3.Function(f"expr_{type(op).__name__}", x.t.sort(), x.t.sort(), x.t.sort())
+                return Val(x.t, f(a.z, b.z))
         if any(isinstance(x, PyConst) and isinstance(x.v, float) for x in (l, r)) or isinstance(op, ast.Div):
             return Unknown("float arithmetic")
         if any(isinstance(x, PyConst) and isinstance(x.v, str) for x in (l, r)) or \
